@@ -1,3 +1,4 @@
 /- C03: symmetries. -/
 import Proofs.C03Sym
 import Proofs.C02Fkm
+import Proofs.ThreePoint
